@@ -182,7 +182,7 @@ func (it *Interp) round(es []sched.Entry) string {
 		Prefixes:    []string{"la.", "bla.", "mb."},
 		BeforeStart: func(tid int) { it.clk.SetMs(ths[tid].clock) },
 		OnTick:      func(ms uint64) { it.clk.Ns += ms * 1e6 },
-		StepTimeout: 30 * time.Second,
+		StepTimeout: 5 * time.Minute,
 		MaxSteps:    200000,
 	})
 	if rep.Err != nil {
